@@ -326,6 +326,11 @@ def run(ctx):
     for r in ctx.results[n0:]:
         r.rule = "C02.5"
     ctx.counts["C02.5"] = ctx.counts.pop("C14.2", 0)
+    # C02.7: power(), abs('all') and the transforms form signal + noise: with both stored as bool arrays that `+` is a logical OR
+    # (a sample where both are 1 counts as 1, not 2), power() is no longer the mean of |signal+noise|^2 and Parseval fails between
+    # the library's own objects.  The storage clause of C01 (C01.4), reported here for the constructors C02's methods rely on
+    from .c01 import rule_numeric_storage
+    rule_numeric_storage(ctx, "C02.7")
     ctx.require_min("C02.1", 24)
     ctx.require_min("C02.2", 24)
     ctx.require_min("C02.3", 8)
